@@ -308,7 +308,16 @@ class SInt:
         return _branch(self.z != 0)
 
     def __index__(self):
-        raise Unsupported("symbolic int used as index")
+        # enumerate the feasible values one path at a time (complete when the domain is finite)
+        for _ in range(10000):
+            m = E.ENG.get_model()
+            if m is None:
+                raise E.Abort()
+            v = m.eval(self.z, model_completion=True).as_long()
+            E.ENG.stats["concretized"] += 1
+            if _branch(self.z == v):
+                return v
+        raise Unsupported("symbolic index with too many values")
 
     def __int__(self):
         raise Unsupported("int() of symbolic int through the builtin (module global 'int' not rebound)")
